@@ -8,6 +8,7 @@ CONSTANTS
   SpellNames = {"s1", "s2", "s3", "s4"}
   EmitTrees = TRUE
   Alpha = "A"
+  Contexts = {}
   MaxLen = 0
   TailLen = 0
   DeepReps = {}
